@@ -1399,7 +1399,7 @@ fn finish_call() {
         }
         h().report.distinct(&key);
         h().report.count(if f.import { "import_calls" } else { "export_calls" });
-        if h().report.samples.len() < 3 && (c.set == 1) {
+        if h().report.samples.len() < 3 {
             h().report.sample(json!({
                 "func": func_label(c.fi), "options": h().opts.label(),
                 "args": c.args.iter().map(|v| v.text()).collect::<Vec<_>>(), "result": c.result.as_ref().map(|v| v.text()),
